@@ -13,6 +13,8 @@
 #include <kernel/assembly/common_operators.hpp>
 #include <kernel/assembly/domain_assembler.hpp>
 #include <kernel/assembly/domain_assembler_helpers.hpp>
+#include <kernel/assembly/function_integral_jobs.hpp>
+#include <kernel/assembly/basic_assembly_jobs.hpp>
 #include <kernel/assembly/symbolic_assembler.hpp>
 #include <kernel/geometry/common_factories.hpp>
 #include <kernel/geometry/conformal_mesh.hpp>
@@ -381,7 +383,7 @@ namespace
       for(int j = 0; j < njobs; ++j)
       {
         rec.job = j;
-        int kind = int(sim::cfg_weighted(K(("job" + std::to_string(j)).c_str()), {4, 2, 2, 3, 3, 2, 2}));
+        int kind = int(sim::cfg_weighted(K(("job" + std::to_string(j)).c_str()), {4, 2, 2, 3, 3, 2, 2, 1, 1, 1, 1}));
         bool fail_job = false;
         bool scat = true;
         long nsel = long(selected.size());
@@ -459,6 +461,67 @@ namespace
             double a[3] = {double(job.result().value), double(job.result().norm_h0_sqr), double(job.result().norm_h1_sqr)};
             double b[3] = {double(rjob.result().value), double(rjob.result().norm_h0_sqr), double(rjob.result().norm_h1_sqr)};
             compare("function integral", a, b, 3, 1e-11);
+          }
+          break;
+        case 7: // force functional (analytic function itself as the force) into a DenseVector
+          {
+            Analytic::Common::SineBubbleFunction<dim> func;
+            typedef Assembly::ForceFunctionalAssemblyJob<Analytic::Common::SineBubbleFunction<dim>, VectorType, SpaceType> JobType;
+            VectorType v(space.get_num_dofs(), 0.0), rv(space.get_num_dofs(), 0.0);
+            JobType job(func, v, space, "auto-degree:2", 0.5), rjob(func, rv, space, "auto-degree:2", 0.5);
+            Wrap<JobType> w(job);
+            da.assemble(w);
+            REC = &ref_rec; Wrap<JobType> rw(rjob); ref.assemble_master(rw); REC = &rec;
+            compare("force functional vector", v.elements(), rv.elements(), v.size(), 1e-12);
+          }
+          break;
+        case 8: // bilinear operator with separate test and trial space arguments (mass matrix)
+          {
+            Assembly::Common::IdentityOperator op;
+            typedef Assembly::BilinearOperatorMatrixAssemblyJob2<Assembly::Common::IdentityOperator, MatrixType, SpaceType, SpaceType> JobType;
+            MatrixType m, rm;
+            Assembly::SymbolicAssembler::assemble_matrix_std1(m, space);
+            rm = m.clone(LAFEM::CloneMode::Weak);
+            m.format(); rm.format();
+            JobType job(op, m, space, space, "auto-degree:2", 2.0), rjob(op, rm, space, space, "auto-degree:2", 2.0);
+            Wrap<JobType> w(job);
+            da.assemble(w);
+            REC = &ref_rec; Wrap<JobType> rw(rjob); ref.assemble_master(rw); REC = &rec;
+            compare("mass matrix (test/trial job)", m.val(), rm.val(), m.used_elements(), 1e-12);
+          }
+          break;
+        case 9: // error integral of a discrete function (no scatter, combine under the mutex)
+          {
+            scat = false;
+            Analytic::Common::SineBubbleFunction<dim> func;
+            VectorType uh(space.get_num_dofs());
+            for(Index i = 0; i < uh.size(); ++i) uh(i, double((i * 37u) % 11u) * 0.125 - 0.5);
+            typedef Assembly::ErrorFunctionIntegralJob<Analytic::Common::SineBubbleFunction<dim>, VectorType, SpaceType, 1> JobType;
+            JobType job(func, uh, space, "auto-degree:3"), rjob(func, uh, space, "auto-degree:3");
+            Wrap<JobType> w(job);
+            da.assemble(w);
+            REC = &ref_rec; Wrap<JobType> rw(rjob); ref.assemble_master(rw); REC = &rec;
+            double a[3] = {double(job.result().value), double(job.result().norm_h0_sqr), double(job.result().norm_h1_sqr)};
+            double b[3] = {double(rjob.result().value), double(rjob.result().norm_h0_sqr), double(rjob.result().norm_h1_sqr)};
+            compare("error function integral", a, b, 3, 1e-11);
+          }
+          break;
+        case 10: // cell-wise error integral: scatter writes the cell's own entry, combine adds the total
+          {
+            Analytic::Common::SineBubbleFunction<dim> func;
+            VectorType uh(space.get_num_dofs());
+            for(Index i = 0; i < uh.size(); ++i) uh(i, double((i * 29u) % 13u) * 0.125 - 0.75);
+            typedef Assembly::CellErrorFunctionIntegralJob<Analytic::Common::SineBubbleFunction<dim>, VectorType, SpaceType, 0> JobType;
+            JobType job(func, uh, space, "auto-degree:3"), rjob(func, uh, space, "auto-degree:3");
+            Wrap<JobType> w(job);
+            da.assemble(w);
+            REC = &ref_rec; Wrap<JobType> rw(rjob); ref.assemble_master(rw); REC = &rec;
+            auto res = job.result(); auto rres = rjob.result();
+            double a[2] = {double(res.integral_info.value), double(res.integral_info.norm_h0_sqr)};
+            double b[2] = {double(rres.integral_info.value), double(rres.integral_info.norm_h0_sqr)};
+            compare("cell error integral (total)", a, b, 2, 1e-11);
+            if(res.vec.size() != rres.vec.size()) sim::fail("RESULT", "cell error vector has a different length than the single-threaded one");
+            compare("cell error integral (per cell)", res.vec.elements(), rres.vec.elements(), res.vec.size(), 1e-12);
           }
           break;
         case 6: // failing job: a task throws on a seeded cell or in its constructor -> everybody must still terminate
